@@ -17,6 +17,7 @@ type Events = Arc<Mutex<Vec<Value>>>;
 
 thread_local! {
     static TID: RefCell<(u64, u64, Vec<u64>)> = RefCell::new((0, 0, vec![])); // thread, record index, shape
+    static FAIL_AFTER: RefCell<Option<usize>> = RefCell::new(None); // the encoder gives up after this many write calls
 }
 
 /// one unit of record (t, i): no newline anywhere, so line buffering cannot help
@@ -60,7 +61,16 @@ struct ShapeEncoder {
 impl Encode for ShapeEncoder {
     fn encode(&self, w: &mut dyn EncWrite, _record: &log::Record) -> anyhow::Result<()> {
         let (t, i, shape) = TID.with(|x| x.borrow().clone());
-        for n in shape {
+        let fail_after = FAIL_AFTER.with(|x| *x.borrow());
+        for (k, n) in shape.iter().copied().chain(std::iter::once(u64::MAX)).enumerate() {
+            if fail_after == Some(k) {
+                // FileAppender.tla, EncodeFail: logged here, while the appender's lock is still held
+                self.events.lock().unwrap().push(json!({"e": "encfail", "t": t, "chunks": k}));
+                anyhow::bail!("scripted encoder failure");
+            }
+            if n == u64::MAX {
+                break;
+            }
             let mut chunk = vec![];
             for _ in 0..n {
                 chunk.extend(unit_bytes(t, i));
@@ -123,6 +133,11 @@ fn scenario(rng: &mut Rng, append_mode: bool, events: &Events, problems: &mut Ve
     let nthreads = if long { 3 } else { 1 + rng.below(3) };
     let shapes: Vec<Vec<u64>> = vec![vec![], vec![0], vec![1], vec![3], vec![4], vec![5], vec![3, 3], vec![1, 4], vec![2, 2, 1], vec![4, 4], vec![1, 0, 3], vec![7]];
     let plans: Vec<Vec<Vec<u64>>> = (0..nthreads).map(|_| (0..if long { 60 } else { 1 + rng.below(3) }).map(|_| rng.pick(&shapes).clone()).collect()).collect();
+    // about one record in seven has an encoder that gives up after some of its write calls; in every fourth scenario
+    // that is (also) the very first record handed to the freshly built appender
+    let fails: Vec<Vec<Option<usize>>> = plans.iter().enumerate().map(|(ti, plan)| plan.iter().enumerate().map(|(k, shape)| {
+        if (ti == 0 && k == 0 && run_no % 4 == 1) || rng.below(7) == 0 { Some(rng.below(shape.len() as u64 + 1) as usize) } else { None }
+    }).collect()).collect();
     let amp_seed = rng.next();
     // hook: events under the lock + race amplifier
     let ev = events.clone();
@@ -159,6 +174,7 @@ fn scenario(rng: &mut Rng, append_mode: bool, events: &Events, problems: &mut Ve
     let first_plan_len = plans[0].len() as u64;
     for (ti, plan) in plans.into_iter().enumerate() {
         let t = ti as u64 + 1;
+        let fails = fails[ti].clone();
         let a = appender.clone();
         let ev = events.clone();
         let b = barrier.clone();
@@ -170,10 +186,19 @@ fn scenario(rng: &mut Rng, append_mode: bool, events: &Events, problems: &mut Ve
                 let i = k as u64 + 1;
                 let units: u64 = shape.iter().sum();
                 TID.with(|x| *x.borrow_mut() = (t, i, shape.clone()));
+                FAIL_AFTER.with(|x| *x.borrow_mut() = fails[k]);
+                let scripted = fails[k].is_some();
                 ev.lock().unwrap().push(json!({"e": "begin", "t": t, "i": i, "shape": shape}));
                 let r = catch(|| a.append(&log::Record::builder().level(log::Level::Info).args(format_args!("x")).build()));
+                FAIL_AFTER.with(|x| *x.borrow_mut() = None);
                 let ok = matches!(r, Ok(Ok(())));
-                ev.lock().unwrap().push(json!({"e": "end", "t": t, "i": i, "ok": ok}));
+                ev.lock().unwrap().push(json!({"e": "end", "t": t, "i": i, "ok": ok, "scripted": scripted}));
+                if scripted {
+                    if !matches!(r, Ok(Err(_))) {
+                        probs.push(json!({"what": "the encoder's error was not returned by append", "t": t, "i": i}));
+                    }
+                    continue;
+                }
                 if !ok {
                     probs.push(json!({"what": "append failed or panicked", "t": t, "i": i, "detail": format!("{:?}", r.map(|x| x.map_err(|e| e.to_string())))}));
                 }
@@ -191,8 +216,18 @@ fn scenario(rng: &mut Rng, append_mode: bool, events: &Events, problems: &mut Ve
     for h in handles {
         problems.extend(h.join().unwrap());
     }
-    if let Some(b) = successor.filter(|_| append_mode) {
-        drop(appender);
+    // the appender goes away: what it still buffered (the beginning of a record whose encoder failed) reaches the file
+    let closed = |events: &Events| {
+        let f = match std::fs::read(&path).map_err(|e| e.to_string()).and_then(|b| runs(&b)) {
+            Ok(r) => json!(r),
+            Err(e) => json!([[-1, -1, 1, e]]),
+        };
+        events.lock().unwrap().push(json!({"e": "closed", "file": f}));
+    };
+    let successor = successor.filter(|_| append_mode);
+    drop(appender);
+    closed(events);
+    if let Some(b) = successor {
         let (t, i, shape) = (1u64, first_plan_len + 1, vec![2u64, 1]);
         TID.with(|x| *x.borrow_mut() = (t, i, shape.clone()));
         events.lock().unwrap().push(json!({"e": "begin", "t": t, "i": i, "shape": shape}));
@@ -202,6 +237,8 @@ fn scenario(rng: &mut Rng, append_mode: bool, events: &Events, problems: &mut Ve
         if !ok {
             problems.push(json!({"what": "append through the successor failed or panicked", "detail": format!("{:?}", r.map(|x| x.map_err(|e| e.to_string())))}));
         }
+        drop(b);
+        closed(events);
     }
     log4rs::verif::set_global_callback(None);
 }
